@@ -140,6 +140,41 @@ theorem delay_gt_neg_one_every_run {α : Type} (K : Kern α) (z : α) (owed : Na
     have h4 : (D.length : Int) * p < (F.length : Int) * q + p := by exact_mod_cast h3
     omega
 
+/-- **Never negative at end-of-input, for every run**: the hypothesis `D ≤ owed N` of `delay_after_flush` holds at every point of
+    every streaming run of a plan whose decidable hypotheses hold, the post-context clause included (`rate/2 ≤ 1 + offset + margin`;
+    `margin` counts what an output WAITS for — for the cubic stage its hold-back `pre_post`, which is what makes the clause true
+    of every linear-phase plan the real planner produces, the large-factor `SOXR_QQ` plans included; evaluated by the driver on
+    every exported plan), provided the engine's floating-point `owed` is not below the exact rounding `⌊N/rate + ½⌋`.  So whenever
+    end-of-input is said, nothing has been handed out that the final total does not contain: the delay then reported,
+    `owed N − D`, is not negative. -/
+theorem hearly_every_run {α : Type} (K : Kern α) (z : α) (owed : Nat → Nat) (lp : List LStage)
+    (hwf : ∀ x ∈ lp, StageWF x.cfg x.s0) (he : PlanEarlyOK lp) (hlat : PlanLatOK false lp)
+    (hpost : rateOf (lp.map tstage) / 2 ≤ 1 + offsetOf (lp.map tstage) + margOf lp) (hpos : 0 < rateOf (lp.map tstage))
+    (ops : List (DOp α)) (F D : List α) (e : DEng α)
+    (r : DRuns K z owed (DEng.fresh z (lp.map LStage.toPlan)) ops F D e) (hfl : e.fl = false)
+    (howed : ⌊(F.length : ℚ) / rateOf (lp.map tstage) + 1 / 2⌋₊ ≤ owed F.length) :
+    D.length ≤ owed F.length :=
+  le_trans (Soxr.Properties.C03.never_early_round K z owed lp hwf he hlat hpost hpos ops F D e r hfl).2 howed
+
+/-- non-vacuity of `hearly_every_run` where it matters: the plan the real planner builds for 49 → 10 at `SOXR_QQ` (one cubic stage,
+    step 4.9·2³² rounded, `pre_post = 4`, `pre = preload = 1`) meets every hypothesis, the post-context clause included … -/
+def exCubic : List LStage :=
+  [ { cfg := { kind := .clocked, prePost := 4, den := 4294967296, step := 21045339750, taps := 4 },
+      s0 := { occ := 1, clk := 0, isz := 8192 }, lat := { pre := 1, cubic := true } } ]
+
+example : (∀ x ∈ exCubic, StageWF x.cfg x.s0) ∧ PlanEarlyOK exCubic ∧ PlanLatOK false exCubic := by decide
+example : rateOf (exCubic.map tstage) / 2 ≤ 1 + offsetOf (exCubic.map tstage) + margOf exCubic := by
+  simp only [exCubic, List.map, rateOf, offsetOf, margOf, tstage, margin]; norm_num
+
+/-- … and the same stage with half the window kept as history (`pre = preload = pre_post >> 1 = 2`, a change that passes the
+    test-suite and makes the library hand out one frame too many before end-of-input) does not: the clause is what separates them -/
+def exCubicHalved : List LStage :=
+  [ { cfg := { kind := .clocked, prePost := 4, den := 4294967296, step := 21045339750, taps := 4 },
+      s0 := { occ := 2, clk := 0, isz := 8192 }, lat := { pre := 2, cubic := true } } ]
+
+example : ¬ (rateOf (exCubicHalved.map tstage) / 2 ≤ 1 + offsetOf (exCubicHalved.map tstage) + margOf exCubicHalved) := by
+  simp only [exCubicHalved, List.map, rateOf, offsetOf, margOf, tstage, margin]; norm_num
+
 example : roundDiv 7 2 = 4 ∧ roundDiv 5 2 = 3 ∧ roundDiv (-1) 2 = 0 := by decide
 
 end Soxr.Properties.C15
